@@ -285,6 +285,8 @@ def make_term(name):
         return mt.VTR(-1e300)
     if name == 'vtr':
         return mt.VTR(0.0625)
+    if name == 'vtr10':
+        return mt.VTR(10.0)
     if name == 'cog1':
         return mt.ChangeOverGeneration(0.015625, 1)
     if name == 'cog2':
@@ -407,7 +409,7 @@ def range_mode(cfg):
     return kw
 
 
-def solo(cfg, x0, term):
+def solo(cfg, x0, term, legacy_steps=0):
     """differential oracle: a stand-alone nested solver configured by hand with what the ensemble was given
     (start, box and range mode, constraint, penalty, limits, termination), run to completion on its own
     recorder -> (call sequence, best solution, best energy) or ('error', ...)"""
@@ -433,6 +435,8 @@ def solo(cfg, x0, term):
             if cfg.get('limits') is not None:
                 s.SetEvaluationLimits(cfg['limits'][0], cfg['limits'][1])
             s.SetTermination(copy.deepcopy(term))
+            if legacy_steps:
+                s.SetGenerationMonitor(preloaded(legacy_steps, cfg))
             s.Solve(cost)
         return ([(x, v) for k, x, v in tr.calls], tuple(float(v) for v in np.asarray(s.bestSolution).ravel()),
                 float(np.asarray(s.bestEnergy).ravel()[0]))
